@@ -111,16 +111,10 @@ package fox
 
 //@ -- ---------------------------------------------------------------- C09 / C08: hostname first, path-only fallback
 
-//@ fun byDomainNode(t *iTree, target *node, host string, path string) *node
-//@ fun byDomainTsr(t *iTree, target *node, host string, path string) bool
 
 //@ -- the two walks, abstracted for the caller (their mechanisms are specified separately)
 //@ -- lookupByPath is under contract in verif_contracts_walk.go
-//@ extern lookupByDomain
-//@   requires c != nil && c.params != nil && c.tsrParams != nil && c.skipNds != nil
-//@   requires safety-target: target != nil
-//@   modifies *c.params, *c.tsrParams, *c.skipNds, E[Param], E[skippedNode]
-//@   ensures n == byDomainNode(tree, target, host, path) && tsr == byDomainTsr(tree, target, host, path) && (tsr ==> n != nil) && (n != nil ==> n.route != nil)
+//@ -- lookupByDomain is under contract in verif_contracts_walk.go
 
 //@ func (roots).lookup props C09,C08,C01 partial
 //@   requires c != nil && c.params != nil && c.tsrParams != nil && c.skipNds != nil
